@@ -391,7 +391,16 @@ class Exec:
         self.ctx.obls.append(Obligation(name, kind, st.hyps(), goal, where, meta))
 
     def where(self, node, st):
-        fi = st.frame.finfo
+        fi = None
+        f = st.frame
+        while f is not None and fi is None:
+            fi = f.finfo
+            f = f.parent
+        if fi is None:
+            for fr in reversed(st.frames):
+                if fr.finfo is not None:
+                    fi = fr.finfo
+                    break
         fn = fi.module.path if fi is not None and hasattr(fi, "module") else "?"
         return f"{fn}:{getattr(node, 'lineno', '?')}"
 
